@@ -2,6 +2,7 @@
 from __future__ import annotations
 
 import copy
+import math
 import warnings
 from fractions import Fraction
 
@@ -25,6 +26,90 @@ def np_kind(k: str) -> np.dtype:
     return np.dtype({"pyint": "int64", "pyfloat": "float64"}.get(k, k))
 
 
+# ---------------------------------------------------------------------------------------------------------------------
+# stream `nd_narrow`: N-d histograms of a NARROW content type meeting operands of a wider type in the in-place paths
+# (fill_n(weights=...), fill(weight=...), += / + of a histogram, *= / * by a scalar).  Helpers of that stream.
+
+NDN_EDGES = [0.0, 1.0, 2.0]                     # every axis: the two cells [0, 1) and [1, 2]
+NDN_CLASSES = {"h2": 2, "h3": 3, "h": None, "Histogram2D": 2, "HistogramND": None, "PolarHistogram": 2,
+               "CylindricalHistogram": 3}       # entry point -> dimension (None: 2 or 3)
+LD = np.dtype(np.longdouble).name               # "float128" on x86-64 linux
+LD_WIDER = HAVE_F128 and LD == "float128" and np.finfo(np.longdouble).nmant > 52
+MANT = {"float16": 11, "float32": 24, "float64": 53}        # significand bits
+if LD_WIDER:
+    MANT[LD] = int(np.finfo(np.longdouble).nmant) + 1
+MACHINE_DT = set(history1.DTYPES)               # the dtypes of Model/DTypeMachine.lean (no int8, no unsigned types)
+# HistogramND.fill_n with longdouble weights is refused by numpy.histogramdd ("Cannot cast array data from dtype('float128')
+# to dtype('float64') according to the rule 'safe'") AFTER the content type was changed to float128: kept out of the stream
+# (reported; refusal atomicity is C18's subject, and the dtype machine already replays it as `refused_after_coerce`).
+ENABLE_NDN_LONGDOUBLE_FILL_N = False
+# Integer weights are squared (`weights**2`, `weight**2`), and the sums of a batch are stored
+# (`np.histogramdd(...).astype(weights.dtype)`), in the WEIGHTS' own type before they are added to the (wider) contents:
+# an int64 N-d histogram filled with the int32 weights [2**30, 2**30] in one cell ends with the content -2**31, int16
+# weight 300 leaves errors2 24464 in an int32 histogram (1-D: the sums are exact, the squares wrap as well).  The promoted
+# content type could hold these values; the property does not speak about intermediates: reported, kept out of the stream.
+ENABLE_NDN_SUMS_BEYOND_WEIGHT_TYPE = False
+
+
+def ndn_lim(dt) -> int:
+    """the largest content / squared error the generator lets a histogram of type `dt` reach: inside the type's range, and
+    below 2**53 because HistogramND.fill_n sums weights with numpy.histogramdd, i.e. in float64 (sums beyond 2**53 are
+    rounded there even for int64 weights: reported, not pinned by the property)"""
+    dt = np.dtype(dt)
+    if dt.kind in "iu":
+        return min(int(np.iinfo(dt).max), 2**53 - 1)
+    return 60000 if dt.name == "float16" else 2**53
+
+
+def ndn_fits(dt, v: Fraction) -> bool:
+    """is the rational `v` a value of type `dt` (normal range)?"""
+    dt = np.dtype(dt)
+    if dt.kind in "iu":
+        info = np.iinfo(dt)
+        return v.denominator == 1 and int(info.min) <= v <= int(info.max)
+    if v == 0:
+        return True
+    n, d = abs(v.numerator), v.denominator
+    if d & (d - 1):
+        return False
+    while n % 2 == 0:
+        n //= 2
+    if n.bit_length() > MANT.get(dt.name, 53):
+        return False
+    if dt.name == "float16":
+        return Fraction(1, 2**14) <= abs(v) <= 65504
+    return Fraction(1, 2**120) <= abs(v) <= 2**120
+
+
+def ndn_num(v, dt, py: bool = False):
+    """the number `v` (a rational string) as a python number (`py`) or as a numpy scalar of type `dt`, exactly"""
+    from ..core import frac
+    v, dt = Fraction(v), np.dtype(dt)
+    if dt.kind in "iu":
+        x = int(v) if py else dt.type(int(v))
+    elif py:
+        x = float(v)
+    elif dt.name == LD and LD_WIDER:
+        n, sh, x = abs(v.numerator), 0, np.longdouble(0)
+        while n:
+            x = x + np.longdouble(n & 0xFFFFFFFF) * np.longdouble(2) ** sh
+            n >>= 32
+            sh += 32
+        x = x / np.longdouble(2) ** (v.denominator.bit_length() - 1)
+        x = -x if v < 0 else x
+    else:
+        x = dt.type(float(v))
+    if frac(x) != v:
+        raise ValueError(f"{v} is not a {dt.name} number (malformed nd_narrow case)")
+    return x
+
+
+def ndn_operand_dtype(step) -> np.dtype:
+    """the type physt sees in `np.asarray(operand).dtype` / `type(weight)`: a list of python ints / a python int is int64,
+    python floats are float64"""
+    return np.dtype(step["wdtype"])
+
+
 class C13(Hist1Prop):
     ID = "C13"
     N_QUICK = 500
@@ -33,7 +118,14 @@ class C13(Hist1Prop):
             "dtype (also values near the int16 / float16 limits), fill (python / numpy int / float weights), fill_n (int16..64, "
             "float32/64 weights), + - between histograms of every dtype pair, * / by python and numpy scalars, normalize, "
             "merge, explicit set_dtype / dtype= to every dtype (accepted or refused), copy, slice; and the complete 7x7 "
-            "promote_types / can_cast tables of the model compared with numpy (exhaustive). non-trivial = the dtype of some "
+            "promote_types / can_cast tables of the model compared with numpy (exhaustive). stream nd_narrow (1/12 of the cases): "
+            "N-d histograms (h2 / h3 / h, Histogram2D, HistogramND, PolarHistogram, CylindricalHistogram) created with a narrow "
+            "dtype (int8/16/32, uint8/16/32, float16/32, float64 vs longdouble), then 1-3 of fill_n(weights = array / list), "
+            "fill(weight = numpy / python scalar), += / + of a histogram, *= / * by a scalar whose type is mostly WIDER and of "
+            "the same kind, with weights / sums / squared weights beyond the narrow range or not representable in the narrow "
+            "float: dtype == frequencies.dtype == errors2.dtype, dtype = numpy promotion of (contents, operand), contents "
+            "and errors2 equal to the exact sums; the types of these cases are also replayed by the dtype machine; a quarter "
+            "of the dtype-machine histories start the same way (stream dtm_nd_narrow). non-trivial = the dtype of some "
             "histogram changes during the history; distinct = op-list hash")
     FIELDS = {"dtype", "keep"}
     EXTRA_TRUST = ["numpy.promote_types / numpy.can_cast are the reference for the model's two 7x7 tables (compared exhaustively each run)"]
@@ -41,16 +133,39 @@ class C13(Hist1Prop):
     def gen_case(self, rng, k, tier):
         if k % 12 == 5:
             return self.gen_nd(rng)
+        if k % 12 == 11:
+            # narrow N-d content types meeting wider operands of the same kind in the in-place paths (1/12 of the cases)
+            return self.gen_ndn(rng)
         if k % 5 == 2:
             # the dtype machine (Model/DTypeMachine.lean, Theorems/C13_Machine.lean): a random history on real 1-D / adaptive
             # / 2-D histograms; the machine must predict dtype, frequencies.dtype, errors2.dtype (and the type of the missed
             # counts) after every operation
+            if k % 20 == 17:
+                # a quarter of them: a narrow N-d histogram first meets wider weights / operands / factors (dtm_gen.history_ndn)
+                return {"kind": "dtm", "seed": rng.getrandbits(31), "focus": "nd_narrow", "ops": [],
+                        "tags": ["dtm", "stream:dtm_nd_narrow"]}
             return {"kind": "dtm", "seed": rng.getrandbits(31), "ops": [], "tags": ["dtm"]}
         ops, tags = history1.history(rng, nops=(2, 8), invalid_share=0.15, dtype_focus=True)
         if not HAVE_F128:
             for o in ops:
                 if o.get("dtype") == "float128":
                     o["dtype"] = "float64"
+        # The model keeps exact values; physt rounds a value that is inside the range of float16 / float32 but not one of
+        # their numbers (2^31 - 1 -> 2^31 in float32, 2^15 - 1 -> 2^15 in float16: the on-limit stream of history1 stores
+        # exactly these).  Whether the ROUNDED value still fits an integer type is not something the property pins (the same
+        # false alarm as the rounded quotients of DESIGN 9.4; met by the thorough tier, default seed): after such a
+        # conversion the history asks for float64 wherever it asked for an integer type.
+        given = [Fraction(x) for o in ops if o["op"] == "of_arrays" for x in (o.get("freq") or []) + (o.get("err2") or [])
+                 if isinstance(x, str) and x not in ("inf", "-inf", "nan")]
+        rounding = False
+        for o in ops:
+            if o["op"] != "set_dtype":
+                continue
+            if o["dtype"] in ("float16", "float32") and any(not ndn_fits(o["dtype"], v) for v in given):
+                rounding = True
+            elif rounding and o["dtype"].startswith("int"):
+                o["dtype"] = "float64"
+                tags = tags + ["float_target_after_rounding"]
         return {"kind": "hist1", "ops": ops, "tags": tags, "tolerance": True}
 
     # ------------------------------------------------------------------ N-d: dtype of construction / arithmetic
@@ -202,16 +317,410 @@ class C13(Hist1Prop):
                 fails.append(f"truncated: N-d / 2 turned {b['freq']} into {a['freq']}")
         return fails[:6]
 
+    # ------------------------------------------------------------------ N-d: narrow content types meeting wider operands
+    # case: {"kind": "nd_narrow", "cls": entry point, "d": 2|3, "dtype": narrow content type, "init": rows counted at
+    #        construction, "steps": [...]}; every number of a step is a rational string that is exactly a value of the step's
+    #        operand type ("wdtype" = the numpy type physt sees: python ints are int64, python floats float64):
+    #   {"op": "fill_n", "rows": [[x, ..]], "ws": [w, ..], "wdtype": W, "form": "array" | "list"}
+    #   {"op": "fill", "row": [x, ..], "w": w, "wdtype": W, "form": "np" | "py"}
+    #   {"op": "iadd", "cells": [[[i, ..], f, e2], ..], "wdtype": W (type of the other histogram), "inplace": bool}
+    #   {"op": "imul", "k": k, "wdtype": W, "form": "np" | "py", "how": "i" | "l" | "r"}
+    @staticmethod
+    def ndn_cell(row):
+        idx = []
+        for x in row:
+            if 0 <= x < 1:
+                idx.append(0)
+            elif 1 <= x <= 2:
+                idx.append(1)
+            else:
+                return None
+        return tuple(idx)
+
+    def gen_ndn(self, rng):
+        cls = rng.choice(sorted(NDN_CLASSES))
+        d = NDN_CLASSES[cls] or rng.choice([2, 3])
+        pool = ["int16"] * 3 + ["int32"] * 3 + ["int8", "uint8", "uint16", "uint32"] + ["float16"] * 2 + ["float32"] * 4
+        if LD_WIDER:
+            pool += ["float64"]
+        dt = rng.choice(pool)
+
+        def coord():
+            return rng.choice([0.5, 0.5, 0.5, 1.5, 1.5, 1.0, 0.0, 7.0 if rng.random() < 0.25 else 1.5])
+
+        def row():
+            return [coord() for _ in range(d)]
+        init = [row() for _ in range(rng.choice([0, 0, 1, 2, 3]))]
+        if dt.startswith("uint") and cls not in ("h2", "h3", "h"):
+            # an unsigned histogram refuses unweighted fill_n (numpy: "Cannot cast ufunc 'add' output from dtype('int64') to
+            # dtype('uint8') with casting rule 'same_kind'"); unsigned types are outside the property's list: reported
+            init = []
+        sim = {}                        # cell -> [content, squared error], exact
+
+        def add(cell, f, e):
+            if cell is not None:
+                c = sim.setdefault(cell, [Fraction(0), Fraction(0)])
+                c[0] += f
+                c[1] += e
+        for r in init:
+            add(self.ndn_cell(r), Fraction(1), Fraction(1))
+        cur, steps, tags = np.dtype(dt), [], []
+        for _ in range(rng.randint(1, 3)):
+            op = rng.choice(["fill_n"] * 5 + ["fill"] * 2 + ["iadd"] * 2 + ["imul"] * 2)
+            ints = ["int16", "int32", "int64", "uint16", "uint32"]
+            floats = ["float32", "float64"] + ([LD] if LD_WIDER else [])
+            same, other = (ints, floats[:2]) if cur.kind in "iu" else (floats, ints[:3])
+            wider = [w for w in same if np.promote_types(cur, w) != cur and np.promote_types(cur, w).kind == cur.kind]
+            r = rng.random()
+            if r < 0.75 and wider:
+                W, rel = rng.choice(wider), "wider_same_kind"
+            elif r < 0.88 or not wider:
+                W, rel = rng.choice([w for w in same + [cur.name] if np.promote_types(cur, w) == cur]), "not_wider"
+            else:
+                W, rel = rng.choice(other), "other_kind"
+            W = np.dtype(W)
+            if op == "fill_n" and W.name == LD and not ENABLE_NDN_LONGDOUBLE_FILL_N:
+                op = rng.choice(["fill", "iadd", "imul"])
+            P = np.promote_types(cur, W)
+            lim = ndn_lim(P)
+            nmax = int(np.iinfo(cur).max) if cur.kind in "iu" else 2**11     # what the narrow type could still hold
+            top = max([Fraction(1)] + [max(c) for c in sim.values()])
+
+            def weight(n=1):
+                """a weight of type W (one of a batch of n); preferably one that (or whose square) is not a value of the
+                current content type"""
+                if W.kind in "iu":
+                    # physt squares the weights, and numpy.histogramdd's sums of a batch are stored, in the weights' own type
+                    own = lim if ENABLE_NDN_SUMS_BEYOND_WEIGHT_TYPE else min(int(np.iinfo(W).max), lim)
+                    wsq = min(int(np.iinfo(W).max), max(1, math.isqrt(own // n)))
+                    pick = rng.choice(["sq", "sq", "big", "small"])
+                    if pick == "sq":
+                        w = math.isqrt(nmax) + 1 + rng.randint(0, 40)
+                    elif pick == "big":
+                        w = nmax + 1 + rng.randint(0, 1000)
+                    else:
+                        w = rng.randint(1, 9)
+                    return Fraction(max(1, min(w, wsq)))
+                pc, pw = MANT.get(cur.name, 11), MANT[W.name]
+                if rel == "wider_same_kind" and rng.random() < 0.85:
+                    k = rng.randint(max(2, pc // 2 + 1), pw - 1)       # k >= pc: the weight itself is not a value of the
+                    return Fraction(2**k + 1, 2**k)                     # narrow type; below: its square is not
+                return Fraction(rng.choice(["1/2", "1/4", "3/2", "2", "3", "5/4"]))
+            st = {"op": op, "wdtype": W.name}
+            trial = []
+            if op == "fill_n":
+                rows = [row() for _ in range(rng.randint(1, 4))]
+                ws = [weight(len(rows)) for _ in rows]
+                st.update(rows=rows, ws=ws, form=rng.choice(["array", "list"]) if W.name in ("int64", "float64") else "array")
+                trial = [(self.ndn_cell(r), w, w * w) for r, w in zip(rows, ws)]
+            elif op == "fill":
+                rw, w = row(), weight()
+                st.update(row=rw, w=w, form=rng.choice(["np", "py"]) if W.name in ("int64", "float64") else "np")
+                trial = [(self.ndn_cell(rw), w, w * w)]
+            elif op == "iadd":
+                cells = []
+                for _ in range(rng.randint(1, 3)):
+                    idx = tuple(rng.randint(0, 1) for _ in range(d))
+                    if idx in [c[0] for c in cells]:
+                        continue
+                    if W.kind in "iu":
+                        f = Fraction(min(int(np.iinfo(W).max), lim // 4, rng.choice([nmax + 1 + rng.randint(0, 99), nmax // 2 + 1, 3])))
+                        e = rng.choice([f, Fraction(min(int(np.iinfo(W).max), lim // 4, int(f) * rng.randint(1, 3)))])
+                    else:
+                        f, e = weight(), weight()
+                    cells.append((idx, f, e))
+                st.update(cells=[[list(i), f, e] for i, f, e in cells], inplace=rng.random() < 0.7)
+                trial = list(cells)
+            else:
+                if W.kind in "iu":
+                    kmax = max(1, math.isqrt(lim // max(1, int(top))))
+                    k = Fraction(max(1, min(kmax, int(np.iinfo(W).max), rng.choice([nmax // 2 + 1, math.isqrt(nmax) + 1, 2, 3]))))
+                else:
+                    k = weight()
+                st.update(k=k, form=rng.choice(["np", "py"]) if W.name in ("int64", "float64") else "np", how=rng.choice(["i", "i", "l", "r"]))
+            # the exact contents after the step must stay inside what the promoted type holds
+            if op == "imul":
+                k = st["k"]
+                if any(c[0] * k > lim or c[1] * k * k > lim for c in sim.values()):
+                    continue
+                for c in sim.values():
+                    c[0], c[1] = c[0] * k, c[1] * k * k
+            else:
+                after = {c: list(v) for c, v in sim.items()}
+                for cell, f, e in trial:
+                    if cell is not None:
+                        v = after.setdefault(cell, [Fraction(0), Fraction(0)])
+                        v[0] += f
+                        v[1] += e
+                if any(max(v) > lim for v in after.values()):
+                    continue
+                sim = after
+            for key in ("ws", "w", "k"):
+                if key in st:
+                    st[key] = [str(x) for x in st[key]] if key == "ws" else str(st[key])
+            if "cells" in st:
+                st["cells"] = [[i, str(f), str(e)] for i, f, e in st["cells"]]
+            steps.append(st)
+            tags.append(f"ndn:{op}:{rel}")
+            tags.append(f"ndn:{cur.name}<-{W.name}")
+            if cur.kind in "iu" and P != cur and any(max(v) > nmax for v in sim.values()):
+                tags.append("ndn:beyond_narrow_range")
+            cur = P
+        return {"kind": "nd_narrow", "cls": cls, "d": d, "dtype": dt, "init": init, "steps": steps, "ops": [],
+                "tags": ["stream:nd_narrow", f"ndn:cls:{cls}", f"ndn:dtype:{dt}"] + tags}
+
+    def ndn_make(self, case, dt, rows=None):
+        """a histogram of the case's class on the fixed grid with content type `dt` (public constructors / facades only)"""
+        import physt
+        from physt.binnings import StaticBinning
+        cls, d = case["cls"], case["d"]
+        edges = [list(NDN_EDGES) for _ in range(d)]
+        data = np.array(rows, dtype=float).reshape(len(rows), d) if rows else None
+        if cls == "h2":
+            return physt.h2(None if data is None else data[:, 0], None if data is None else data[:, 1], edges, dtype=dt), True
+        if cls == "h3":
+            return physt.h3(data, edges, dtype=dt), True
+        if cls == "h":
+            return (physt.h(data, edges, dtype=dt) if data is not None else physt.h(None, edges, dim=d, dtype=dt)), True
+        return self.ndn_class(case)([StaticBinning(e) for e in edges], dtype=dt), False
+
+    @staticmethod
+    def ndn_class(case):
+        from physt.histogram_nd import Histogram2D, HistogramND
+        from physt import special_histograms as sp
+        return {"Histogram2D": Histogram2D, "HistogramND": HistogramND, "PolarHistogram": sp.PolarHistogram,
+                "CylindricalHistogram": sp.CylindricalHistogram}.get(case["cls"], Histogram2D if case["d"] == 2 else HistogramND)
+
+    def ndn_other(self, case, W, cells):
+        """the other operand of `+=`: same class and grid, contents / squared errors given per cell, content type W"""
+        from physt.binnings import StaticBinning
+        shape = (len(NDN_EDGES) - 1,) * case["d"]
+        f, e = np.zeros(shape, dtype=W), np.zeros(shape, dtype=W)
+        for idx, fv, ev in cells:
+            f[tuple(idx)], e[tuple(idx)] = ndn_num(fv, W), ndn_num(ev, W)
+        return self.ndn_class(case)([StaticBinning(list(NDN_EDGES)) for _ in range(case["d"])], frequencies=f, errors2=e, dtype=W)
+
+    def run_ndn(self, case):
+        from ..core import nrs
+        from ..dtm_gen import st as state_of
+        d = case["d"]
+        kw = {"transformed": True} if case["cls"] in ("PolarHistogram", "CylindricalHistogram") else {}
+        log, out = [], {"steps": [], "lines": [], "states": []}
+
+        def snap(x):
+            return {"dtype": str(x.dtype), "fdt": str(x.frequencies.dtype), "edt": str(x.errors2.dtype),
+                    "shape": list(x.shape), "freq": [nrs(v) for v in x.frequencies.ravel()],
+                    "err2": [nrs(v) for v in x.errors2.ravel()]}
+
+        def line(text, x):
+            out["lines"].append(text)
+            out["states"].append(state_of(x))
+        with warnings.catch_warnings():
+            warnings.simplefilter("ignore")
+            try:
+                x, counted = self.ndn_make(case, np.dtype(case["dtype"]), case["init"])
+                line(f"construct none {case['dtype']} 0", x)
+                if not counted and case["init"]:
+                    x.fill_n(np.array(case["init"], dtype=float), **kw)
+                    line("fill_n none 0 1 0", x)
+            except Exception as e:
+                return {"outs": {"refused": True}, "log": [f"{type(e).__name__}: {e}"[:160]]}
+            out["init"] = snap(x)
+            for st in case["steps"]:
+                before, s0 = snap(x), state_of(x)
+                W = np.dtype(st["wdtype"])
+                py = st.get("form") in ("py", "list")
+                sc = ("py:int" if W.kind in "iu" else "py:float") if py else "np:" + W.name
+                text = None
+                try:
+                    if st["op"] == "fill_n":
+                        ws = [ndn_num(w, W, py) for w in st["ws"]]
+                        text = f"fill_n {W.name} 0 1 0"
+                        x.fill_n(np.array(st["rows"], dtype=float), weights=ws if py else np.array(ws, dtype=W), **kw)
+                    elif st["op"] == "fill":
+                        text = f"fill {sc} 0 0"
+                        x.fill(list(st["row"]), weight=ndn_num(st["w"], W, py), **kw)
+                    elif st["op"] == "iadd":
+                        o = self.ndn_other(case, W, st["cells"])
+                        text = f"add {state_of(o)} 0"
+                        if st["inplace"]:
+                            x += o
+                        else:
+                            x = x + o
+                    else:
+                        k = ndn_num(st["k"], W, py)
+                        text = f"mul {sc}"
+                        if st["how"] == "i":
+                            x *= k
+                        elif st["how"] == "l":
+                            x = x * k
+                        else:
+                            x = k * x
+                    line(text, x)
+                    out["steps"].append({"op": st["op"], "ret": "ok", "before": before, "after": snap(x)})
+                except Exception as e:
+                    log.append(f"{st['op']}: {type(e).__name__}: {e}"[:200])
+                    if state_of(x) != s0:
+                        line(f"refused_after_coerce {W.name}", x)
+                    out["steps"].append({"op": st["op"], "ret": "REFUSED", "before": before, "after": snap(x)})
+        return {"outs": out, "log": log}
+
+    def ndn_expected(self, case, st, before):
+        """exact contents / squared errors after the step (ravel order), from the snapshot before it; None if a value before
+        is not a finite number"""
+        from .. import gennd
+        if any(v in (None, "inf", "-inf") for v in before["freq"] + before["err2"]):
+            return None
+        d = case["d"]
+        cells = gennd.unravel([len(NDN_EDGES) - 1] * d)
+        pos = {c: i for i, c in enumerate(cells)}
+        f = [Fraction(v) for v in before["freq"]]
+        e = [Fraction(v) for v in before["err2"]]
+        axes = [([(Fraction(a), Fraction(b)) for a, b in zip(NDN_EDGES, NDN_EDGES[1:])], True)] * d
+        if st["op"] in ("fill_n", "fill"):
+            rows = st["rows"] if st["op"] == "fill_n" else [st["row"]]
+            ws = st["ws"] if st["op"] == "fill_n" else [st["w"]]
+            for r, w in zip(rows, ws):
+                c = gennd.cell_of(axes, [Fraction(v) for v in r])
+                if c is not None:
+                    f[pos[c]] += Fraction(w)
+                    e[pos[c]] += Fraction(w) ** 2
+        elif st["op"] == "iadd":
+            for idx, fv, ev in st["cells"]:
+                f[pos[tuple(idx)]] += Fraction(fv)
+                e[pos[tuple(idx)]] += Fraction(ev)
+        else:
+            k = Fraction(st["k"])
+            f, e = [v * k for v in f], [v * k * k for v in e]
+        return f, e
+
+    def oracle_ndn(self, case, io):
+        o, fails = io["outs"], []
+        if o.get("refused"):
+            return [f"refused_valid: {case['cls']} on fixed edges with dtype={case['dtype']} and {len(case['init'])} unweighted rows "
+                    "was refused: " + "; ".join(io["log"][:1])]
+
+        def consistent(sn, where):
+            if not (sn["dtype"] == sn["fdt"] == sn["edt"]):
+                fails.append(f"inconsistent: {where}: dtype {sn['dtype']} over {sn['fdt']} / {sn['edt']} arrays")
+        ini = o["init"]
+        consistent(ini, "after construction")
+        if ini["dtype"] != case["dtype"]:
+            fails.append(f"construct_dtype: {case['cls']}(..., dtype={case['dtype']}) has dtype {ini['dtype']}")
+        exp0 = self.ndn_expected(case, {"op": "fill_n", "rows": case["init"], "ws": ["1"] * len(case["init"])},
+                                 {"freq": ["0"] * 2 ** case["d"], "err2": ["0"] * 2 ** case["d"]})
+        if [Fraction(v) if v not in (None, "inf", "-inf") else v for v in ini["freq"]] != exp0[0]:
+            fails.append(f"lossy: {case['cls']} with dtype={case['dtype']} counted {case['init']} as {ini['freq']}")
+        for st, stp in zip(case["steps"], o["steps"]):
+            b, a = stp["before"], stp["after"]
+            old, W = np.dtype(b["dtype"]), ndn_operand_dtype(st)
+            exp = np.promote_types(old, W)
+            what = {"fill_n": f"fill_n(weights = {st.get('form')} of {W.name} {st.get('ws')})",
+                    "fill": f"fill(weight = {'python' if st.get('form') == 'py' else 'numpy'} {W.name} {st.get('w')})",
+                    "iadd": f"{'+=' if st.get('inplace') else '+'} a {W.name} histogram",
+                    "imul": f"{'*=' if st.get('how') == 'i' else '*'} {'python' if st.get('form') == 'py' else 'numpy'} {W.name} {st.get('k')}"}[st["op"]]
+            where = f"{case['cls']} ({case['d']}-d) of {old}: {what}"
+            consistent(a, where)
+            ev = self.ndn_expected(case, st, b)
+            # the values are pinned when every exact result is a finite number inside the promoted type's range (and, for
+            # integer weights, the squared weights and their sums inside the weights' own type, in which physt squares them
+            # and stores the sums of the batch before adding them)
+            pinned = ev is not None
+            if pinned and exp.kind in "iu":
+                pinned = all(v.denominator == 1 and 0 <= v <= ndn_lim(exp) for v in ev[0] + ev[1])
+            elif pinned:
+                pinned = all(0 <= v <= ndn_lim(exp) for v in ev[0] + ev[1])
+            if pinned and W.kind in "iu" and st["op"] in ("fill_n", "fill") and not ENABLE_NDN_SUMS_BEYOND_WEIGHT_TYPE:
+                # (one bound for all: the squares of a whole batch added up)
+                sq = sum(Fraction(w) ** 2 for w in (st["ws"] if st["op"] == "fill_n" else [st["w"]]))
+                pinned = sq <= int(np.iinfo(W).max)
+            if stp["ret"] != "ok":
+                if pinned and (ENABLE_NDN_LONGDOUBLE_FILL_N or not (st["op"] == "fill_n" and W.name == LD)):
+                    fails.append(f"refused_valid: {where} was refused: " + "; ".join(io["log"][:1]))
+                continue
+            new = np.dtype(a["dtype"])
+            if new != exp:
+                fails.append(f"{st['op']}_dtype: {where} gives {new}, numpy promotion of ({old}, {W}) is {exp}")
+            if not pinned:
+                continue
+            eps = Fraction(1, 2 ** (MANT.get(exp.name, 53) - 1))
+            for name, got, want in (("contents", a["freq"], ev[0]), ("errors2", a["err2"], ev[1])):
+                bad = None
+                for i, (g, w) in enumerate(zip(got, want)):
+                    if g in (None, "inf", "-inf"):
+                        bad = i
+                    elif ndn_fits(exp, w):
+                        if Fraction(g) != w:
+                            bad = i
+                    elif abs(Fraction(g) - w) > 16 * eps * abs(w):
+                        bad = i
+                    if bad is not None:
+                        break
+                if bad is not None:
+                    fails.append(f"lossy: {where}: {name} of cell {bad} went from {(b['freq'] if name == 'contents' else b['err2'])[bad]} "
+                                 f"to {got[bad]}, the exact result is {want[bad]} (dtype {old} -> {new})")
+            if len(fails) > 6:
+                break
+        return fails[:6]
+
     def exhaustive_cases(self, tier):
         # one pseudo-case: the table comparison (handled in run_impl / oracle)
         yield {"kind": "tables", "ops": [], "tags": ["tables"]}
 
+    def ndn_signatures(self, case):
+        return {f.split(":")[0] for f in self.oracle_ndn(case, self.run_ndn(case))}
+
+    @staticmethod
+    def ndn_smaller(case):
+        """drop a step, a row of a batch (with its weight), a cell of the other operand, a row counted at construction; every
+        step carries its own operand, so what is left is a well-formed case"""
+        for k in range(len(case["steps"]) - 1, -1, -1):
+            if len(case["steps"]) > 1:
+                c = copy.deepcopy(case)
+                del c["steps"][k]
+                yield c
+        for k, st in enumerate(case["steps"]):
+            for key, other in (("rows", "ws"), ("cells", None)):
+                if len(st.get(key, [])) > 1:
+                    for j in range(len(st[key])):
+                        c = copy.deepcopy(case)
+                        del c["steps"][k][key][j]
+                        if other:
+                            del c["steps"][k][other][j]
+                        yield c
+        for j in range(len(case["init"])):
+            c = copy.deepcopy(case)
+            del c["init"][j]
+            yield c
+        if case["cls"] != "h2" and case["d"] == 2 and not case["init"]:
+            c = copy.deepcopy(case)
+            c["cls"] = "h2"
+            yield c
+
     def shrink_candidates(self, case):
+        if case["kind"] == "nd_narrow":
+            # a smaller case must show every kind of failure the case shows (a wrong type AND a lost value, not only the former)
+            want = self.ndn_signatures(case)
+            for c in self.ndn_smaller(case):
+                try:
+                    if want <= self.ndn_signatures(c):
+                        yield c
+                except Exception:
+                    continue
+            return
         ops = case["ops"]
         for k in range(len(ops) - 1, 2, -1):
             c = copy.deepcopy(case)
             del c["ops"][k]
             yield c
+
+    def neighbours(self, case):
+        """after a broken correspondence of a dtype-machine replay / a narrow N-d case: fresh narrow N-d cases (the oracle
+        pins types AND values there), derived from the case only"""
+        if case["kind"] in ("dtm", "nd_narrow"):
+            from ..core import Rng, case_hash
+            for i in range(60):
+                yield self.gen_ndn(Rng(f"{case_hash(case)}:{i}"))
 
     def run_impl(self, case):
         if case["kind"] == "tables":
@@ -220,16 +729,18 @@ class C13(Hist1Prop):
             return {"outs": t, "log": []}
         if case["kind"] == "nd_dtype":
             return self.run_nd(case)
+        if case["kind"] == "nd_narrow":
+            return self.run_ndn(case)
         if case["kind"] == "dtm":
             from .. import dtm_gen
-            hist = dtm_gen.run_history(case["seed"])
+            hist = dtm_gen.run_history(case["seed"], case.get("focus"))
             return {"outs": {"lines": [l for l, st in hist if st is not None], "states": [st for l, st in hist if st is not None],
                              "notes": [l for l, st in hist if st is None]}, "log": [l for l, st in hist if st is None][:4]}
         from .c18 import PROP as C18P
         return C18P.run_impl(case)
 
     def diff(self, case, model_ok, io):
-        if case["kind"] == "dtm":
+        if case["kind"] in ("dtm", "nd_narrow"):
             got, want = io["outs"]["states"], list(model_ok)
             d = []
             if len(got) != len(want):
@@ -254,6 +765,8 @@ class C13(Hist1Prop):
             return []
         if case["kind"] == "nd_dtype":
             return self.oracle_nd(case, io)
+        if case["kind"] == "nd_narrow":
+            return self.oracle_ndn(case, io)
         if case["kind"] == "dtm":
             fails = []
             for line, st in zip(io["outs"]["lines"], io["outs"]["states"]):
@@ -358,8 +871,15 @@ class C13(Hist1Prop):
                     fails.append(f"accepted_invalid: set_dtype({op['dtype']}) accepted although values do not fit: freq {b['freq']} err2 {b['err2']}")
                 elif new != np.dtype(op["dtype"]):
                     fails.append(f"set_dtype: dtype is {new} after set_dtype({op['dtype']})")
-                elif new.kind == "i" or new.itemsize >= old.itemsize:
-                    if [Fraction(x) for x in a["freq"]] != [Fraction(x) for x in b["freq"]] or [Fraction(x) for x in a["err2"]] != [Fraction(x) for x in b["err2"]]:
+                else:
+                    # every value that IS a number of the new type must come through unchanged (an accepted change to an
+                    # integer type: all of them).  A value inside the range of a narrower float type but not representable
+                    # there (int32 2147483647 -> float32, which has 24 significant bits) is rounded: the property demands
+                    # "within its range" for those, nothing more.  [was: `new.itemsize >= old.itemsize`, which called the
+                    # int32 -> float32 rounding of 2^31 - 1 a loss: false alarm of the on-limit stream, seed 5]
+                    bv = [Fraction(x) for x in b["freq"] + b["err2"]]
+                    av = [Fraction(x) for x in a["freq"] + a["err2"]]
+                    if len(av) != len(bv) or any(x != y for x, y in zip(bv, av) if new.kind == "i" or ndn_fits(new, x)):
                         fails.append(f"lossy: values changed by set_dtype({op['dtype']}): {b['freq']} -> {a['freq']}")
             elif name in ("copy", "slice", "merge"):
                 if new != old:
@@ -387,6 +907,12 @@ class C13(Hist1Prop):
             return None          # oracle only (the N-d dtype rules are those of the shared base class)
         if case["kind"] == "dtm":
             return {"kind": "dtm", "lines": io["outs"]["lines"]}
+        if case["kind"] == "nd_narrow":
+            # the types (reported / frequencies / errors2 / missed) are replayed by the dtype machine where it knows the types
+            # (it has no int8 and no unsigned types); the values are the oracle's
+            if io["outs"].get("refused") or not {case["dtype"], *(s["wdtype"] for s in case["steps"])} <= MACHINE_DT:
+                return None
+            return {"kind": "dtm", "lines": io["outs"]["lines"]}
         return case
 
     def tags(self, case, io):
@@ -395,7 +921,9 @@ class C13(Hist1Prop):
         if case["kind"] == "nd_dtype":
             return list(case["tags"]) + [f"step:{s}" for s in case["steps"]]
         if case["kind"] == "dtm":
-            return ["dtm"] + sorted({"dtm:" + l.split()[0] for l in io["outs"]["lines"]})
+            return list(case.get("tags") or ["dtm"]) + sorted({"dtm:" + l.split()[0] for l in io["outs"]["lines"]})
+        if case["kind"] == "nd_narrow":
+            return list(case["tags"]) + [f"ndn:ret:{s['ret']}" for s in io["outs"].get("steps", [])]
         return super().tags(case, io)
 
     def nontrivial(self, case, io):
@@ -405,6 +933,8 @@ class C13(Hist1Prop):
             return len(case["rows"]) > 0
         if case["kind"] == "dtm":
             return len({st.split()[0] for st in io["outs"]["states"]}) > 1
+        if case["kind"] == "nd_narrow":
+            return any(s["before"]["dtype"] != s["after"]["dtype"] for s in io["outs"].get("steps", []))
         seen = {}
         for o in io["outs"]:
             for i, r in enumerate(o["regs"]):
